@@ -13,14 +13,15 @@ RULE = ('each run = one long-lived parser (Polish or standard notation; auto_pre
         'empty, pre-declared or frozen) receiving a history of 5-40 inputs: writer renderings of generated sentences (all '
         'operators, quantifiers, system and user predicates, subscripts), the same with an input fault at a seeded position '
         '(truncate, flip, insert, foreign/unicode character, delete, duplicate span, stray parenthesis, swapped variable, '
-        'padding), random strings over the alphabet plus foreign characters, and strings of length <=2; every 16th run '
+        'padding, inner whitespace, digit runs), very deep nesting (40-600 levels) and very long subscripts optionally inside a '
+        'quantifier scope followed by short inputs reusing its variable, random strings over the alphabet plus foreign characters, and strings of length <=2; every 16th run '
         'enumerates a slice of all strings of length <=3 over the alphabet. Per parse: Sentence or ParseError only, a '
         'deterministic trace-event budget for termination, structural closedness / non-vacuity / arity of the result, equality '
         'with a fresh twin parser carrying the declarations as they were before the call, and stable re-parse. '
         'distinct_nontrivial = distinct input strings that reached the parser')
 ASSUMPTIONS = [
     'the predicate store is part of the input: a failed parse that auto-declared a predicate is not flagged, only a difference from the twin is',
-    'non-termination = more than 300000 trace events (calls anywhere, lines inside parsing.py/collect.py) for an input of <=200 characters',
+    'non-termination = more than 1500000 trace events (calls anywhere, lines inside parsing.py/collect.py) per input (ordinary inputs <=200 characters; deep-nesting inputs up to ~5000)',
 ]
 COMPONENTS = dict(real='pytableaux.lang.parsing (both parsers), lang.collect.Predicates, lang.writing (to render workloads)', stub='none')
 
